@@ -38,6 +38,16 @@ def run(ctx):
         n = rng.choice([2, 3])
         pairs = [[sorted(rng.sample(range(8), rng.randint(0, 6))), sorted(rng.sample(range(8), rng.randint(0, 6)))] for _ in range(n)]
         cases.append({"kind": "intersect", "pairs": pairs, "batchings": compositions(n)})
+    # two loop ranks above the intersected one; tuple coordinates of the intersected rank flattened with two different widths in consecutive sessions
+    for c in list(cases):
+        if c["kind"] == "intersect" and len(c["pairs"]) > 1 and rng.random() < 0.4:
+            cases.append(dict(c, outer2=1))
+        elif c["kind"] == "intersect" and rng.random() < 0.25:
+            cases.append(dict(c, tuplew=[4, 8] if rng.random() < 0.5 else [8, 3]))
+    for _ in range(120 if ctx.quick else 2500):
+        n = rng.choice([1, 2])
+        pairs = [[sorted(rng.sample(range(24), rng.randint(1, 8))), sorted(rng.sample(range(24), rng.randint(1, 8)))] for _ in range(n)]
+        cases.append({"kind": "intersect", "pairs": pairs, "batchings": compositions(n), "tuplew": rng.choice([[4, 8], [8, 3], [6, 4], [5, 12]])})
     for _ in range(250 if ctx.quick else 5000):
         k = rng.randint(2, 5)
         lists = [sorted(rng.sample(range(8), rng.randint(1, 5))) for _ in range(k)]
@@ -68,7 +78,7 @@ def where(c):
         la, lb = max(a), max(b)
         return (la < lb and la in b) or (lb < la and lb in a)
     lo = any(leftover(a, b) for a, b in c["pairs"][:-1])
-    return f"fibers{n}" + (":some-empty" if empt else "") + (":leftover-head" if lo else "")
+    return f"fibers{n}" + (":outer2" if c.get("outer2") else "") + (":tuples" if c.get("tuplew") else "") + (":some-empty" if empt else "") + (":leftover-head" if lo else "")
 
 
 def replay(ctx, rec):
